@@ -2,6 +2,7 @@
 import importlib.util, os, re
 
 ID = "C19"
+SUBMODULES = ["c05cli"]     # end-to-end: bindings, expect keys, chains and conditionals on the real `sk` binary under a pty
 N_QUICK, N_THOROUGH = 3000, 120000
 STRICT_MODEL = True
 
